@@ -1,7 +1,7 @@
 (* C06 - include-except removes exactly the excluded entries and rewrites only suffixes. Statements only. *)
 From Coq Require Import String Permutation.
 From Verif Require Import Base.Str Base.Lines Base.Outcome Regex.Re Regex.Equiv Model.Patterns Model.ParseLine Model.Passes Model.CmdLine Model.Parser Model.Assembler Model.Generate.
-From Verif Require Import Proofs.IncludeExceptProofs Proofs.IncludeInlineProofs Proofs.ScanUnlinesProofs Proofs.IncludeExceptInlineProofs.
+From Verif Require Import Proofs.IncludeExceptProofs Proofs.IncludeInlineProofs Proofs.ScanUnlinesProofs Proofs.IncludeExceptInlineProofs Proofs.IncludeAffixProofs Proofs.IncludePairsProofs.
 From Verif Require Import Proofs.EquivSound Proofs.PassesProofs Proofs.CmdLineProofs Proofs.ParserProofs Proofs.AssemblerProofs.
 From Verif Require Tie.Pin_lits_regex_parser_include_except_builder_replaceSuffixes Tie.Pin_lits_regex_parser_include_except_builder_removeExclusions Tie.Pin_lits_regex_parser_include_except_builder_buildinclusionLineMap Tie.Pin_lits_regex_parser_include_except_builder_stringFromInclusionLines Tie.Pin_lits_regex_parser_include_except_builder_buildIncludeExceptString Tie.Pin_lits_regex_parser_include_except_builder_buildIncludeString Tie.Pin_lits_regex_parser_include_except_builder_inclusionLineSlice_Less Tie.Pin_lits_regex_parser_parser_buildPairMap Tie.Pin_lits_regex_parser_parser_splitArgs Tie.Pin_IncludeExceptRegex_src Tie.Pin_IncludeRegex_src.
 Open Scope N_scope.
@@ -102,3 +102,31 @@ Theorem C06_include_except_wordlists_example :
     filter (not_excluded (excluded_lines all_pnames 65536 [cX])) (keep_last (text_lines all_pnames (scan_lines 65536 cF))) = [$"ls"; $"time"].
 Proof. exact include_except_wordlists_example. Qed.
 Print Assumptions C06_include_except_wordlists_example.
+
+(* THE SUFFIX REPLACEMENT, whole parser and whole command: `include F -- k1 v1 ...` of a word-list
+   file is typing the REWRITTEN entries in place, where the rewriting is apply_pairs in the order
+   [ords] in which the pair map is iterated; nothing but the entries is touched (comments and
+   blank lines of F are not handed over at all).  Premise: the rewritten entries are ordinary
+   entry lines again. *)
+Theorem C06_include_with_pairs_is_typing_the_rewritten_entries_partial :
+  forall ordp ords ords2 ordi limit fs join cfg limit_asm pre line post pl c ps contents1 contents2,
+  parse_line ordp (trim_left is_blank line) = Ok pl -> pl_type pl = LInclude -> pl_pairs pl = Some ps ->
+  lookup_file fs (pl_file pl) = Some c -> Forall (simple_line ordp) (scan_lines limit c) ->
+  Forall (clean_line limit) (text_lines ordp (scan_lines limit c)) ->
+  Forall (reg_fixed ordp) (rewritten ords ps (text_lines ordp (scan_lines limit c))) ->
+  scan_lines limit contents1 = pre ++ [line] ++ post ->
+  scan_lines limit contents2 = pre ++ rewritten ords ps (text_lines ordp (scan_lines limit c)) ++ post ->
+  generate join cfg ordp ords ords2 ordi limit limit_asm fs contents1 =
+  generate join cfg ordp ords ords2 ordi limit limit_asm fs contents2.
+Proof. intros. eapply generate_include_pairs_wordlist_inline; eauto. Qed.
+Print Assumptions C06_include_with_pairs_is_typing_the_rewritten_entries_partial.
+
+Theorem C06_include_with_pairs_example :
+  exists pl c ps,
+    parse_line all_pnames (trim_left is_blank $"##!> include cmds -- @ [\s<>]") = Ok pl /\ pl_type pl = LInclude /\ pl_pairs pl = Some ps /\
+    lookup_file ex6b_fs (pl_file pl) = Some c /\ Forall (simple_line all_pnames) (scan_lines 65536 c) /\
+    Forall (clean_line 65536) (text_lines all_pnames (scan_lines 65536 c)) /\
+    rewritten (fun m => m) ps (text_lines all_pnames (scan_lines 65536 c)) = [$"curl[\s<>]"; $"wget[\s<>]"; $"nc"] /\
+    Forall (reg_fixed all_pnames) (rewritten (fun m => m) ps (text_lines all_pnames (scan_lines 65536 c))).
+Proof. exact include_pairs_example. Qed.
+Print Assumptions C06_include_with_pairs_example.
